@@ -15,14 +15,12 @@ Variable cap : nat.
 Variable lam : fev -> N.
 Variable vals : list (N * N).
 Hypothesis Hvals : vals_ok vals.
-Variable K : N.
 
 Notation ws := (map snd vals).
 Notation nv := (length vals).
 Notation q := (ElectionSpec.quorum_of ws).
 Notation fcn := (fc_n ws q).
 Notation ae := (to_aevent lam vals).
-Notation Sim := (Sim lam vals K).
 Notation decideT T f := (decide node nd_id nd_cr nd_fr nd_spf fcn ws q (canon_order vals) T f (max_frame node nd_fr T)).
 
 (* the reference's verdict on an accepted event carries the highest allowed frame *)
@@ -46,9 +44,49 @@ Proof.
   intros x Hx. apply H2, H1, Hx.
 Qed.
 
+(* ---------- from the final simulation to the reference's block list ---------- *)
+Lemma decide_atropos_lt T f a : decideT T f = Atropos a -> f < max_frame node nd_fr T.
+Proof.
+  intros H. destruct (N.lt_ge_cases f (max_frame node nd_fr T)) as [L|L]; [exact L|]. exfalso.
+  unfold decide in H. replace (N.to_nat (max_frame node nd_fr T - f)) with 0%nat in H by lia.
+  cbn [run_rounds] in H. destruct (canon_order vals) as [|v rest]; cbn [choose] in H; [discriminate|].
+  rewrite nth_repeat_none in H. discriminate.
+Qed.
+Lemma seg_bound T L0 B L1 : Seg vals T L0 B L1 ->
+  L1 = L0 + N.of_nat (length B) /\ (B = [] \/ L1 < max_frame node nd_fr T).
+Proof.
+  induction 1 as [L|L a t L1 Hd Hs [IH1 IH2]]; [split; [cbn; lia | left; reflexivity]|].
+  split; [cbn [length]; lia|]. right. destruct IH2 as [->|IH2]; [|exact IH2].
+  cbn [length] in IH1. apply decide_atropos_lt in Hd. lia.
+Qed.
+Lemma blocks_of_seg T : forall B L0 L1 fuel, Seg vals T L0 B L1 ->
+  (forall a, decideT T (L1 + 1) <> Atropos a) -> (length B <= fuel)%nat ->
+  blocks_from node nd_id nd_cr nd_fr nd_spf fcn ws q (canon_order vals) T fuel (L0 + 1) = B.
+Proof.
+  intros B L0 L1 fuel HS. revert fuel. induction HS as [L|L a t L1 Hd Hs IH]; intros fuel Hn Hl.
+  - destruct fuel as [|fu]; cbn [blocks_from]; [reflexivity|].
+    destruct (decideT T (L + 1)) eqn:E; try reflexivity. exfalso. exact (Hn _ eq_refl).
+  - destruct fuel as [|fu]; [cbn [length] in Hl; lia|]. cbn [blocks_from]. rewrite Hd. f_equal.
+    apply IH; [exact Hn | cbn [length] in Hl; lia].
+Qed.
+
+Lemma cheat_map T (B : list (N * N * list N)) :
+  (forall b, In b B -> snd b = ElectionSpec.cheaters_of vals T (snd (fst b))) ->
+  B = map (fun b : N * N => (fst b, snd b, ElectionSpec.cheaters_of vals T (snd b))) (map fst B).
+Proof.
+  induction B as [|[[f a] ch] t IH]; intros H; cbn [map]; [reflexivity|].
+  rewrite <- IH by (intros b Hb; apply H; right; exact Hb).
+  pose proof (H _ (or_introl eq_refl)) as H0. cbn [fst snd] in H0 |- *. rewrite H0. reflexivity.
+Qed.
+
+Variable J : N -> Prop.
+Variable K : N.
+Hypothesis HJ : forall a, J a -> id_fresh K a.
+Notation Sim := (Sim lam vals J K).
+
 (* ---------- the run ---------- *)
 Lemma run_sim : forall D i T Dr B, Sim i T Dr B -> codes_ok (snd (add_events vals T D)) ->
-  (forall e, In e D -> id_fresh K (eid (fe e))) -> few_forkers vals (fst (add_events vals T D)) ->
+  (forall e, In e D -> id_fresh K (eid (fe e)) /\ ~ J (eid (fe e))) -> few_forkers vals (fst (add_events vals T D)) ->
   l_ctr (i_st i) + N.of_nat (length D) < 2 ^ 192 -> l_ctr (i_st i) + N.of_nat (length D) <= K ->
   exists i' B', render (run cap [] sample i (abft_ops lam vals D)) = (snd (add_events vals T D), B') /\
     Sim i' (fst (add_events vals T D)) (rev D ++ Dr) (B ++ B').
@@ -63,10 +101,10 @@ Proof.
     pose proof (add_event_high T e T1 h AE) as Hh.
     destruct (add_event_accept vals T e T1 h AE) as (-> & PK & NL & CR & EW & FO).
     (* Build *)
-    destruct (build_step cap lam vals Hvals K i T Dr B e HS PK CR EW NL FO ltac:(cbn [length] in Hctr; lia) ltac:(cbn [length] in HK; lia)) as [i1 [EB [HS1 Ct1]]].
+    destruct (build_step cap lam vals Hvals J K HJ i T Dr B e HS PK CR EW NL FO ltac:(cbn [length] in Hctr; lia) ltac:(cbn [length] in HK; lia)) as [i1 [EB [HS1 Ct1]]].
     (* Process *)
     assert (Hff1 : few_forkers vals (mk_node nv T e :: T)) by (eapply few_forkers_sub; [exact Inc | exact Hff]).
-    destruct (process_step cap lam vals Hvals K i1 T Dr B e HS1 (Hf e (or_introl eq_refl)) PK NL CR EW FO Hff1)
+    destruct (process_step cap lam vals Hvals J K i1 T Dr B e HS1 (proj1 (Hf e (or_introl eq_refl))) (proj2 (Hf e (or_introl eq_refl))) PK NL CR EW FO Hff1)
       as [bl [i2 [EP [HS2 Ct2]]]].
     destruct (IH i2 (mk_node nv T e :: T) (e :: Dr) (B ++ map blk_obs bl) HS2) as [i' [B' [ER HS']]].
     { rewrite AEs. cbn [snd]. intros r Hr. apply Hc. right. exact Hr. }
@@ -107,40 +145,6 @@ Proof.
   - intros b [].
 Qed.
 
-(* ---------- from the final simulation to the reference's block list ---------- *)
-Lemma decide_atropos_lt T f a : decideT T f = Atropos a -> f < max_frame node nd_fr T.
-Proof.
-  intros H. destruct (N.lt_ge_cases f (max_frame node nd_fr T)) as [L|L]; [exact L|]. exfalso.
-  unfold decide in H. replace (N.to_nat (max_frame node nd_fr T - f)) with 0%nat in H by lia.
-  cbn [run_rounds] in H. destruct (canon_order vals) as [|v rest]; cbn [choose] in H; [discriminate|].
-  rewrite nth_repeat_none in H. discriminate.
-Qed.
-Lemma seg_bound T L0 B L1 : Seg vals T L0 B L1 ->
-  L1 = L0 + N.of_nat (length B) /\ (B = [] \/ L1 < max_frame node nd_fr T).
-Proof.
-  induction 1 as [L|L a t L1 Hd Hs [IH1 IH2]]; [split; [cbn; lia | left; reflexivity]|].
-  split; [cbn [length]; lia|]. right. destruct IH2 as [->|IH2]; [|exact IH2].
-  cbn [length] in IH1. apply decide_atropos_lt in Hd. lia.
-Qed.
-Lemma blocks_of_seg T : forall B L0 L1 fuel, Seg vals T L0 B L1 ->
-  (forall a, decideT T (L1 + 1) <> Atropos a) -> (length B <= fuel)%nat ->
-  blocks_from node nd_id nd_cr nd_fr nd_spf fcn ws q (canon_order vals) T fuel (L0 + 1) = B.
-Proof.
-  intros B L0 L1 fuel HS. revert fuel. induction HS as [L|L a t L1 Hd Hs IH]; intros fuel Hn Hl.
-  - destruct fuel as [|fu]; cbn [blocks_from]; [reflexivity|].
-    destruct (decideT T (L + 1)) eqn:E; try reflexivity. exfalso. exact (Hn _ eq_refl).
-  - destruct fuel as [|fu]; [cbn [length] in Hl; lia|]. cbn [blocks_from]. rewrite Hd. f_equal.
-    apply IH; [exact Hn | cbn [length] in Hl; lia].
-Qed.
-
-Lemma cheat_map T (B : list (N * N * list N)) :
-  (forall b, In b B -> snd b = ElectionSpec.cheaters_of vals T (snd (fst b))) ->
-  B = map (fun b : N * N => (fst b, snd b, ElectionSpec.cheaters_of vals T (snd b))) (map fst B).
-Proof.
-  induction B as [|[[f a] ch] t IH]; intros H; cbn [map]; [reflexivity|].
-  rewrite <- IH by (intros b Hb; apply H; right; exact Hb).
-  pose proof (H _ (or_introl eq_refl)) as H0. cbn [fst snd] in H0 |- *. rewrite H0. reflexivity.
-Qed.
 End Run.
 
 (* ================= L1 ================= *)
@@ -155,7 +159,7 @@ Proof.
       destruct (add_event vals [] e0) as [T1 r] eqn:AE. destruct (add_events vals T1 D0) as [T2 rs].
       cbn [snd] in Hacc. assert (Hr : fst r = 0) by (apply Hacc; left; reflexivity). destruct r as [c h]. cbn in Hr. subst c.
       destruct (add_event_accept vals [] e0 T1 h AE) as (_ & _ & _ & CR & _). lia. }
-    destruct (run_sim cap lam vals Hvals (N.of_nat (length D)) D (start 1 vals) [] [] [] (Sim_start lam vals Hvals _ Hnv) Hacc Hfresh Hff) as [i' [B' [ER HS]]].
+    destruct (run_sim cap lam vals Hvals (fun _ => False) (N.of_nat (length D)) (fun a (F : False) => match F with end) D (start 1 vals) [] [] [] (Sim_start lam vals Hvals (fun _ => False) (N.of_nat (length D)) (fun a (F : False) => match F with end) Hnv) Hacc (fun e He => conj (Hfresh e He) (fun F => F)) Hff) as [i' [B' [ER HS]]].
     { cbn [start i_st genesis l_ctr]. lia. }
     { cbn [start i_st genesis l_ctr]. lia. }
     unfold abft_run. rewrite ER. unfold reference. unfold table in Hff.
